@@ -4301,6 +4301,16 @@ void indent_text()
    }
 null_pc:
 
+   // The frame pushed for indent_func_def_force_col1 is popped by the chunk that follows the
+   // closing brace of the function: there is none if that brace ends the file
+   if (  in_func_def
+      && frm.size() > 1
+      && Chunk::GetTail()->Is(CT_BRACE_CLOSE)
+      && Chunk::GetTail()->GetParentType() == CT_FUNC_DEF)
+   {
+      frm.pop(__func__, __LINE__, pc);
+   }
+
    // Throw out any stuff inside a preprocessor - no need to warn
    while (  !frm.empty()
          && frm.top().GetInPreproc())
